@@ -491,7 +491,8 @@ class AbstractExcelInPython(ABC):
         if num_chars < 0:
             return '#ERROR!'
         if not text:
-            return self.EmptyCell()
+            # the result of a text function is a text: the empty text, not a blank cell (which reads as 0 under &)
+            return ''
         if len(text) < num_chars:
             return text
         return text[0:num_chars]
@@ -501,8 +502,8 @@ class AbstractExcelInPython(ABC):
             return '#NUM!'
         if num_chars < 0:
             return '#VALUE!'
-        if start_num > len(text):
-            return self.EmptyCell()
+        if not text or start_num > len(text):
+            return ''
 
         return text[start_num - 1:start_num + num_chars - 1]
 
@@ -653,7 +654,8 @@ class AbstractExcelInPython(ABC):
         if num_chars < 0:
             return '#ERROR!'
         if not text:
-            return self.EmptyCell()
+            # the result of a text function is a text: the empty text, not a blank cell (which reads as 0 under &)
+            return ''
         if len(text) < num_chars:
             return text
         return text[len(text) - num_chars:]
